@@ -5,7 +5,7 @@
 // case = [0, gr_peers, duration, probe_fams, events]      restarting-speaker glue (C11)
 //   events: [0, rdinput] | [1, f, net, peer, pid, 0]
 // case = [1, events]                                      helper-side glue (C10)
-//   events: [0, fams, gr_opt, llgr_opt] up | [1, f, id, no_llgr, llgr_comm] announce | [2, f] eor
+//   events: [0, fams, local_gr, remote_gr, local_llgr, remote_llgr] up (capabilities; gr = [[fams], restart, nbit], llgr = [[f, t]..]) | [1, f, id, no_llgr, llgr_comm] announce | [2, f] eor
 //           | [3, reason] down | [4] failed connect | [5] restart timer | [6, f] llgr timer
 //           | [7] force_down | [8, b] admin_down
 use super::super::*;
@@ -160,27 +160,50 @@ async fn run_rs_case(l: &[Val]) -> Val {
                 let i = e[1].list();
                 match i[0].int() {
                     0 => {
+                        // the session comes up through the real path: apply_outputs on the FSM's
+                        // SessionNegotiated / SessionEstablished outputs (negotiate_gr, the effects it
+                        // raises), then process_effects.  Both sides advertise GR for exactly `fams`.
                         let p = i[1].u8();
                         let fams: Vec<Family> = i[2].list().iter().map(fam_of).collect();
-                        let negotiated_gr = if fams.is_empty() {
-                            None
+                        let mut caps: Vec<packet::Capability> = if fams.is_empty() {
+                            vec![packet::Capability::MultiProtocol(Family::IPV4)]
                         } else {
-                            Some(NegotiatedGr {
-                                families: fams,
-                                restart_time: Duration::from_secs(90),
-                                notification_enabled: false,
-                            })
+                            fams.iter().map(|f| packet::Capability::MultiProtocol(*f)).collect()
                         };
+                        if !fams.is_empty() {
+                            caps.push(packet::Capability::GracefulRestart {
+                                flags: 0,
+                                restart_time: 90,
+                                families: fams.iter().map(|f| (*f, 0u8)).collect(),
+                            });
+                        }
                         let tables_c = tables.clone();
                         let session = sessions.entry(p).or_insert_with(|| {
                             PeerSession::new_for_test(peer_addr(p), mk_context(), tables_c)
                         });
-                        session
-                            .process_effects(
-                                vec![GlobalEffect::GrSessionEstablished { negotiated_gr }],
-                                &global,
-                            )
-                            .await;
+                        session.local_cap = caps.clone();
+                        let codec = bgp::PeerCodec::negotiate(&caps, &caps);
+                        let role = session.role;
+                        let outputs = vec![
+                            crate::fsm::PeerFsmOutput::Connection(
+                                role,
+                                crate::fsm::Output::SessionNegotiated(codec),
+                            ),
+                            crate::fsm::PeerFsmOutput::Connection(
+                                role,
+                                crate::fsm::Output::SessionEstablished {
+                                    remote_asn: 65100 + p as u32,
+                                    remote_id: p as u32,
+                                    remote_holdtime: 90,
+                                    remote_capabilities: caps,
+                                    effective_max: FnvHashMap::default(),
+                                },
+                            ),
+                        ];
+                        let local_sa: SocketAddr = "192.0.2.254:179".parse().unwrap();
+                        let remote_sa = SocketAddr::new(peer_addr(p), 40000);
+                        let (_step, effects) = session.apply_outputs(outputs, local_sa, remote_sa).await;
+                        session.process_effects(effects, &global).await;
                     }
                     1 => {
                         let p = i[1].u8();
@@ -305,37 +328,97 @@ async fn run_helper_case(l: &[Val]) -> Val {
     let mut session: Option<PeerSession> = None;
     let mut sources: Vec<(Arc<table::Source>, i128)> = Vec::new();
     let mut generation: i128 = 0;
-    let mut admin_down = false;
+    {
+        let mut params = PeerParams {
+            remote_addr: addr,
+            remote_port: Global::BGP_PORT,
+            expected_remote_asn: 0,
+            local_asn: 0,
+            passive: true,
+            rs_client: false,
+            route_reflector: RouteReflectorConfig::default(),
+            delete_on_disconnected: false,
+            admin_down: false,
+            state: SessionState::Idle,
+            holdtime: PeerParams::DEFAULT_HOLD_TIME,
+            connect_retry_time: PeerParams::DEFAULT_CONNECT_RETRY_TIME,
+            multihop_ttl: None,
+            ttl_security: None,
+            password: None,
+            families: FnvHashMap::default(),
+            send_max: FnvHashMap::default(),
+            prefix_limits: FnvHashMap::default(),
+            graceful_restart: None,
+            llgr: None,
+            bfd_config: None,
+            neighbor_interface: None,
+            bind_interface: None,
+            export_policy: None,
+        };
+        params.passive = true;
+        global.write().await.add_peer(params, None).expect("add_peer");
+    }
     let mut obs = Vec::new();
     for ev in l[1].list() {
         let e = ev.list();
         match e[0].int() {
             0 => {
+                // [0, fams, local_gr, remote_gr, local_llgr, remote_llgr]: the session comes up
+                // through the real path: the FSM outputs SessionNegotiated + SessionEstablished
+                // go through apply_outputs (PeerCodec::negotiate, negotiate_gr, negotiate_llgr,
+                // on_established, the GlobalEffects it decides to raise) and then process_effects.
                 if session.is_none() {
                     generation += 1;
                     let mut s = PeerSession::new_for_test(addr, context.clone(), tables.clone());
-                    // on_established: one Source per negotiated family
-                    for f in e[1].list().iter().map(fam_of) {
-                        let src = mk_source(addr, 1);
+                    let fams: Vec<Family> = e[1].list().iter().map(fam_of).collect();
+                    let caps = |gr: &Val, llgr: &Val| -> Vec<packet::Capability> {
+                        let mut c: Vec<packet::Capability> =
+                            fams.iter().map(|f| packet::Capability::MultiProtocol(*f)).collect();
+                        if let Some(g) = gr.list().first() {
+                            c.push(packet::Capability::GracefulRestart {
+                                flags: if g.at(2).bool() { 0x4 } else { 0 },
+                                restart_time: g.at(1).u16(),
+                                families: g.at(0).list().iter().map(|f| (fam_of(f), 0u8)).collect(),
+                            });
+                        }
+                        if let Some(l) = llgr.list().first() {
+                            c.push(packet::Capability::LongLivedGracefulRestart(
+                                l.list()
+                                    .iter()
+                                    .map(|p| (fam_of(p.at(0)), 0u8, p.at(1).u32()))
+                                    .collect(),
+                            ));
+                        }
+                        c
+                    };
+                    let local_cap = caps(&e[2], &e[4]);
+                    let remote_cap = caps(&e[3], &e[5]);
+                    s.local_cap = local_cap.clone();
+                    let codec = bgp::PeerCodec::negotiate(&local_cap, &remote_cap);
+                    let role = s.role;
+                    let outputs = vec![
+                        crate::fsm::PeerFsmOutput::Connection(
+                            role,
+                            crate::fsm::Output::SessionNegotiated(codec),
+                        ),
+                        crate::fsm::PeerFsmOutput::Connection(
+                            role,
+                            crate::fsm::Output::SessionEstablished {
+                                remote_asn: 65101,
+                                remote_id: 1,
+                                remote_holdtime: 90,
+                                remote_capabilities: remote_cap,
+                                effective_max: FnvHashMap::default(),
+                            },
+                        ),
+                    ];
+                    let local_sa: SocketAddr = "192.0.2.254:179".parse().unwrap();
+                    let remote_sa: SocketAddr = "192.0.2.1:40000".parse().unwrap();
+                    let (_step, effects) = s.apply_outputs(outputs, local_sa, remote_sa).await;
+                    s.process_effects(effects, &global).await;
+                    for src in s.source.values() {
                         sources.push((src.clone(), generation));
-                        s.source.insert(f, src);
                     }
-                    // apply_outputs(SessionEstablished): negotiate_gr / negotiate_llgr results
-                    s.negotiated_gr = e[2].list().first().map(|g| NegotiatedGr {
-                        families: g.at(0).list().iter().map(fam_of).collect(),
-                        restart_time: Duration::from_secs(g.at(1).u64()),
-                        notification_enabled: g.at(2).bool(),
-                    });
-                    s.negotiated_llgr = e[3].list().first().map(|lp| NegotiatedLlgr {
-                        families: lp
-                            .list()
-                            .iter()
-                            .map(|p| (fam_of(p.at(0)), Duration::from_secs(p.at(1).u64())))
-                            .collect(),
-                    });
-                    let negotiated_gr = s.negotiated_gr.clone();
-                    s.process_effects(vec![GlobalEffect::GrSessionEstablished { negotiated_gr }], &global)
-                        .await;
                     session = Some(s);
                 }
             }
@@ -370,45 +453,17 @@ async fn run_helper_case(l: &[Val]) -> Val {
             }
             3 => {
                 if let Some(mut s) = session.take() {
-                    // the disconnect block of session_loop()
-                    let shutdown_reason = Some(reason_of(e[1].int()));
-                    let mut disconnect = DisconnectInfo {
+                    // the end of session_loop(): the real PeerSession::teardown(), then the
+                    // rest of run() (apply_disconnect)
+                    let disconnect = DisconnectInfo {
                         role: s.role,
                         remote_addr: s.remote_addr,
                         export_map: ExportMap::default(),
                         negotiated_gr: None,
                         negotiated_llgr: None,
                     };
-                    if !s.source.is_empty() {
-                        let drop_families = families_to_drop_on_disconnect(
-                            s.source.keys(),
-                            s.negotiated_gr.as_ref(),
-                            s.negotiated_llgr.as_ref(),
-                        );
-                        let stale_families: Vec<Family> = s
-                            .negotiated_gr
-                            .as_ref()
-                            .map(|g| g.families.clone())
-                            .unwrap_or_default();
-                        s.tables.unregister_peer(s.remote_addr, &drop_families, &stale_families);
-                    }
-                    disconnect.negotiated_gr = s
-                        .negotiated_gr
-                        .take()
-                        .and_then(|gr| gr_on_disconnect(&shutdown_reason, gr));
-                    if disconnect.negotiated_gr.is_some()
-                        || matches!(
-                            shutdown_reason,
-                            None | Some(crate::fsm::SessionDownReason::IoError)
-                        )
-                    {
-                        disconnect.negotiated_llgr = s.negotiated_llgr.take();
-                    }
-                    // run(): admin-down override
-                    if admin_down {
-                        disconnect.negotiated_gr = None;
-                        disconnect.negotiated_llgr = None;
-                    }
+                    let disconnect =
+                        s.teardown(&global, Some(reason_of(e[1].int())), disconnect).await;
                     apply_disconnect(&context, addr, &tables, disconnect).await;
                 }
             }
@@ -456,7 +511,8 @@ async fn run_helper_case(l: &[Val]) -> Val {
                 context.lock().unwrap().force_down(CloseReason::Silent, false);
             }
             8 => {
-                admin_down = e[1].bool();
+                // disable_peer / enable_peer set this field of the Peer record
+                global.write().await.peers.get_mut(&addr).unwrap().admin_down = e[1].bool();
             }
             t => panic!("verif: bad helper event {}", t),
         }
@@ -496,6 +552,25 @@ async fn run_helper_case(l: &[Val]) -> Val {
             }
         }
         routes.sort();
+        // what apply_outputs negotiated for the live session (negotiate_gr / negotiate_llgr)
+        let neg = match session.as_ref() {
+            None => Val::L(vec![]),
+            Some(s) => Val::L(vec![
+                Val::opt(s.negotiated_gr.as_ref().map(|g| {
+                    Val::L(vec![
+                        Val::L(g.families.iter().map(|f| Val::I(fam_code(f))).collect()),
+                        Val::n(g.restart_time.as_secs()),
+                        Val::b(g.notification_enabled),
+                    ])
+                })),
+                Val::opt(s.negotiated_llgr.as_ref().map(|l| {
+                    Val::L(l.families
+                        .iter()
+                        .map(|(f, d)| Val::L(vec![Val::I(fam_code(f)), Val::n(d.as_secs())]))
+                        .collect())
+                })),
+            ]),
+        };
         obs.push(Val::L(vec![
             Val::b(restarting),
             Val::b(rt),
@@ -504,6 +579,7 @@ async fn run_helper_case(l: &[Val]) -> Val {
                 .into_iter()
                 .map(|r| Val::L(r.into_iter().map(Val::I).collect()))
                 .collect()),
+            neg,
         ]));
     }
     Val::L(obs)
